@@ -5,12 +5,12 @@ package main
 
 import (
 	"fmt"
-	"sync/atomic"
 	"math/big"
 	"sort"
 	"strconv"
 	"strings"
 	"sync"
+	"sync/atomic"
 )
 
 type SortKind int
@@ -91,7 +91,6 @@ var (
 	termShards [nShards]termShard
 	termSeq    int64
 )
-
 
 func intern(t *Term) *Term {
 	var sb strings.Builder
@@ -909,12 +908,12 @@ func printTerm(sb *strings.Builder, t *Term, names map[int]string) {
 // Script builds an SMT-LIB script fragment: declarations for every free symbol in the
 // given terms, shared sub-terms as define-funs, then the caller's assertions.
 type Script struct {
-	decls   []string
-	defs    []string
-	names   map[int]string
-	seenSym map[string]bool
-	sorts   map[string]bool
-	refs    map[int]int
+	decls    []string
+	defs     []string
+	names    map[int]string
+	seenSym  map[string]bool
+	sorts    map[string]bool
+	refs     map[int]int
 	needSpec bool
 }
 
